@@ -293,7 +293,7 @@ def run(ctx, only_extra=False):
                     break
         n = 0
         hung = any(p["kind"] in ("hang", "escaped") for r in results for p in r["problems"])
-        while n < (700 if t else 90) and not hung:
+        while n < (3000 if t else 90) and not hung:
             r = run_experiment(env, random_experiment(rng, t))
             if r is None:
                 continue
